@@ -214,6 +214,8 @@ pub fn compare_reports(expected: &[String], actual: &[String], units: f64, extra
         if te.len() != ta.len() {
             return Some(format!("line {}: expected {:?}, found {:?}", i + 1, e, a));
         }
+        // relative term: w.r.t. the largest number on the line ("tot" is ren + nren, which may cancel)
+        let line_max = te.iter().chain(ta.iter()).filter_map(|t| num_of(t)).map(|(v, _)| v.abs()).filter(|v| v.is_finite()).fold(0.0f64, f64::max);
         for (x, y) in te.iter().zip(ta.iter()) {
             if x == y {
                 continue;
@@ -223,7 +225,7 @@ pub fn compare_reports(expected: &[String], actual: &[String], units: f64, extra
                     if vx.is_nan() && vy.is_nan() {
                         continue;
                     }
-                    let tol = units * 10f64.powi(-(dx as i32)) * 1.0001 + extra + rel * vx.abs().max(vy.abs());
+                    let tol = units * 10f64.powi(-(dx as i32)) * 1.0001 + extra + rel * line_max;
                     if !((vx - vy).abs() <= tol) {
                         return Some(format!("line {}: expected {:?}, found {:?} ({} vs {})", i + 1, e, a, x, y));
                     }
@@ -289,7 +291,25 @@ pub fn check_xml(ep: &EnergyPerformance, xml: &str, units: f64, rel: f64) -> Res
     let b = &ep.balance_m2.we.b;
     one_num("BalanceEPB/kexp", ep.k_exp, 2)?;
     one_num("BalanceEPB/AreaRef", ep.arearef, 2)?;
-    one_num("BalanceEPB/Epm2/tot", b.ren + b.nren, 1)?;
+    {
+        // tot = ren + nren may cancel: its relative tolerance refers to the terms
+        let v = get("BalanceEPB/Epm2/tot");
+        if v.len() != 1 {
+            return Err(Violation::new("xml_content", "BalanceEPB/Epm2/tot", format!("{} <tot> elements, expected exactly 1", v.len())));
+        }
+        let want = b.ren + b.nren;
+        let want_s = f(want, 1);
+        let got_s = v[0].text.trim();
+        if got_s != want_s {
+            let ok = match (got_s.parse::<f64>(), want_s.parse::<f64>()) {
+                (Ok(g), Ok(w)) => (g - w).abs() <= units * 0.10001 + rel * ((b.ren as f64).abs() + (b.nren as f64).abs()) || (g.is_nan() && w.is_nan()),
+                _ => false,
+            };
+            if !ok {
+                return Err(Violation::new("xml_content", "BalanceEPB/Epm2/tot", format!("<tot> says {:?} but the result is {}", got_s, want_s)));
+            }
+        }
+    }
     one_num("BalanceEPB/Epm2/nren", b.nren, 1)?;
     // element counts
     let count = |path: &str| els.iter().filter(|e| e.path == path).count();
